@@ -153,9 +153,31 @@ let () =
             let mem = List.map (fun (_, base, bytes, _) -> (base, bytes)) mem_threads @ regions in
             let (dump_tid, req_tid) = match !bp with Some (d, r) -> (Some d, Some r) | None -> (None, None) in
             let (crash_tid, exc_ctx) = match !exc with Some (tid, r) -> (Some tid, ctx_of r) | None -> (None, None) in
+            (* (round 5, second pass) the printers on that state: see Driver.run_render / item_code *)
+            let render_part =
+              match run_render (z_of_int archid) (z_of_int osid) th dump_tid crash_tid req_tid exc_ctx mem mods unl with
+              | None -> "P;;"
+              | Some ((full, brief), json) ->
+                let tok ((k, a), b) =
+                  let sa = string_of_z a and sb = string_of_z b in
+                  (match string_of_z k with
+                   | "0" -> "T" ^ sa
+                   | "1" -> "N"
+                   | "2" -> "F" ^ sa ^ ":" ^ (if sb = "-1" then "-" else sb)
+                   | "3" -> "I" ^ sa
+                   | "4" -> "J" ^ sa
+                   | "5" -> "f" ^ sa ^ ":" ^ (if sb = "-1" then "-" else sb)
+                   | "6" -> "C" ^ sa
+                   | "7" -> "M" ^ sa ^ "-" ^ sb
+                   | _ -> "m" ^ sa ^ "-" ^ sb) in
+                (* the module lines are compared by the J cases (print iterates by_addr(), which leaves out overlapped modules) *)
+                let keep ((k, _), _) = let c = string_of_z k in c <> "7" && c <> "8" in
+                let line l = let l = List.filter keep l in if l = [] then "-" else String.concat "," (List.map tok l) in
+                line full ^ " | " ^ line brief ^ " | " ^ line json in
             (match run_process (z_of_int archid) (z_of_int osid) th dump_tid crash_tid req_tid exc_ctx mem mods unl with
              | None -> "P;;"
              | Some (outs, req) ->
+               (fun s -> if render_part = "P;;" then "P;;" else s ^ " | " ^ render_part) @@
                "T req=" ^ (match req with Some i -> string_of_z i | None -> "-") ^ " " ^
                String.concat ";" (List.map (fun (((id, info), frames), offs) ->
                    Printf.sprintf "%s:%s:%s:%s" (string_of_z id) (string_of_z info)
